@@ -43,6 +43,12 @@ type WriteRec struct {
 	Bytes []byte
 }
 
+// RemoveRec: a block removal that happened when Seq writes had been made.
+type RemoveRec struct {
+	Seq int
+	Cid cid.Cid
+}
+
 type getReq struct {
 	seq  int
 	c    cid.Cid
@@ -58,6 +64,7 @@ type Store struct {
 	faultMu        sync.Mutex
 	blocks         map[string][]byte
 	Writes         []WriteRec
+	Removes        []RemoveRec
 	Pins           []string
 	Reqs           []string // every Get request, in arrival order (cid strings)
 	ReqAfterCancel int
@@ -83,6 +90,8 @@ type Store struct {
 
 	OnAdd   func(rec WriteRec, n ipld.Node) // monitor hook, called with the lock released
 	OnFault func(kind string)
+	// OnRemove: monitor hook, called with the lock released
+	OnRemove func(c cid.Cid, had bool)
 }
 
 var errInjected = errors.New("simstore: injected I/O error")
@@ -95,10 +104,17 @@ func NewStore() *Store {
 // (a crash-point image of the disk).
 func (s *Store) View(k int) *Store {
 	v := NewStore()
+	ri := 0
 	for _, w := range s.Writes {
+		for ; ri < len(s.Removes) && s.Removes[ri].Seq <= w.Seq && s.Removes[ri].Seq <= k; ri++ {
+			delete(v.blocks, s.Removes[ri].Cid.KeyString())
+		}
 		if w.Seq < k {
 			v.blocks[w.Cid.KeyString()] = w.Bytes
 		}
+	}
+	for ; ri < len(s.Removes) && s.Removes[ri].Seq <= k; ri++ {
+		delete(v.blocks, s.Removes[ri].Cid.KeyString())
 	}
 	return v
 }
@@ -345,9 +361,34 @@ func (d *dagSvc) AddMany(ctx context.Context, ns []ipld.Node) error {
 func (d *dagSvc) GetMany(ctx context.Context, cs []cid.Cid) <-chan *ipld.NodeOption {
 	panic("simstore: GetMany not used by the library")
 }
-func (d *dagSvc) Remove(ctx context.Context, c cid.Cid) error        { panic("simstore: Remove") }
-func (d *dagSvc) RemoveMany(ctx context.Context, cs []cid.Cid) error { panic("simstore: RemoveMany") }
-func (d *dagSvc) Pinning() ipld.NodeAdder                            { return d }
+
+// Remove deletes a block. The library has no reason to call it; a store is a store, though, so it
+// works, is recorded (crash-prefix views honour it) and is reported to the monitor.
+func (d *dagSvc) Remove(ctx context.Context, c cid.Cid) error {
+	s := d.s
+	s.mu.Lock()
+	_, had := s.blocks[c.KeyString()]
+	delete(s.blocks, c.KeyString())
+	s.Removes = append(s.Removes, RemoveRec{Seq: len(s.Writes), Cid: c})
+	s.mu.Unlock()
+	if s.OnRemove != nil {
+		s.OnRemove(c, had)
+	}
+	if !had {
+		return ipld.ErrNotFound{Cid: c}
+	}
+	return nil
+}
+
+func (d *dagSvc) RemoveMany(ctx context.Context, cs []cid.Cid) error {
+	for _, c := range cs {
+		if err := d.Remove(ctx, c); err != nil {
+			return err
+		}
+	}
+	return nil
+}
+func (d *dagSvc) Pinning() ipld.NodeAdder { return d }
 
 // e1AddHook lets the E1 engine intercept Add without any TSan-visible
 // synchronisation (set once in init of e1.go).
